@@ -439,12 +439,65 @@ fn parse_wkb(s: &str) -> Result<Geometry<f64>, String> {
         return Err("hex-lowercase".into());
     }
     let bytes = unhex(s)?;
-    let mut rd: &[u8] = &bytes;
-    let g = wkb::wkb_to_geom(&mut rd).map_err(|_| "wkb-decode".to_string())?;
-    if !rd.is_empty() {
-        return Err("wkb-trailing-bytes".into());
+    // the declared counts must fit the bytes that are there BEFORE the `wkb` crate is let loose on them: a text
+    // that lost a character (every later byte shifted by a nibble) declares billions of points, and the crate
+    // reserves for them (a panic or an allocation failure of the harness, not a verdict on the code)
+    wkb_structure(&bytes)?;
+    let decoded = catch_unwind(AssertUnwindSafe(|| {
+        let mut rd: &[u8] = &bytes;
+        let g = wkb::wkb_to_geom(&mut rd).map_err(|_| "wkb-decode".to_string())?;
+        if !rd.is_empty() {
+            return Err("wkb-trailing-bytes".to_string());
+        }
+        Ok(g)
+    }));
+    match decoded {
+        Ok(r) => r,
+        Err(_) => Err("wkb-decode-panic".into()),
     }
-    Ok(g)
+}
+
+/// little-endian LineString (type 2) or MultiLineString (type 5) whose point / member counts account for every
+/// byte of the buffer
+fn wkb_structure(b: &[u8]) -> Result<(), String> {
+    fn line(b: &[u8], at: usize) -> Result<usize, String> {
+        if at + 9 > b.len() || b[at] != 1 || b[at + 1..at + 5] != [2, 0, 0, 0] {
+            return Err("wkb-structure".into());
+        }
+        let n = u32::from_le_bytes([b[at + 5], b[at + 6], b[at + 7], b[at + 8]]) as usize;
+        let end = at + 9 + 16 * n;
+        if end > b.len() {
+            return Err("wkb-structure".into());
+        }
+        Ok(end)
+    }
+    if b.len() < 9 || b[0] != 1 {
+        return Err("wkb-structure".into());
+    }
+    match b[1..5] {
+        [2, 0, 0, 0] => {
+            if line(b, 0)? != b.len() {
+                return Err("wkb-structure".into());
+            }
+            Ok(())
+        }
+        [5, 0, 0, 0] => {
+            let m = u32::from_le_bytes([b[5], b[6], b[7], b[8]]) as usize;
+            let mut at = 9;
+            for _ in 0..m {
+                if at >= b.len() {
+                    return Err("wkb-structure".into());
+                }
+                at = line(b, at)?;
+            }
+            if at != b.len() {
+                return Err("wkb-structure".into());
+            }
+            Ok(())
+        }
+        // other geometry types are left to the crate (small fixed-size records; the callers refuse them)
+        _ => Ok(()),
+    }
 }
 
 /// the hex text of a multilinestring with its member records in sorted order (the hash map's order is
